@@ -45,3 +45,43 @@ Definition stream_case_ok (c : N * list msg * bytes * list msg) : bool :=
   | Some bs => bytes_eqb bs wire
   | None => false
   end && msgs_eqb (read_stream max wire) held.
+
+(** * Refused writes on a long-lived writer
+
+    WriteMsg as (error, bytes that reach the connection because of this call, now or at any
+    later flush of the same bufio.Writer).  In the code both refusals ("Invalid payload size",
+    "too big payload") are decided before anything is handed to the buffered writer, so a
+    refused call emits nothing and the next accepted message starts at a frame boundary. *)
+Inductive write_error := WInvalidSize | WTooBig.
+
+Definition write_msg_emit (max : N) (m : msg) : option write_error * bytes :=
+  if negb (m_length m =? blen (m_payload m)) then (Some WInvalidSize, [])
+  else if max <? m_length m then (Some WTooBig, [])
+  else (None, marshal_header m ++ m_payload m).
+
+Definition accepted (max : N) (m : msg) : bool :=
+  match fst (write_msg_emit max m) with None => true | Some _ => false end.
+
+(** Successive WriteMsg calls on ONE writer, refused ones included: what is on the wire after
+    the last flush. *)
+Definition write_stream_mixed (max : N) (ms : list msg) : bytes :=
+  flat_map (fun m => snd (write_msg_emit max m)) ms.
+
+Definition write_error_code (e : option write_error) : N :=
+  match e with None => 0 | Some WInvalidSize => 1 | Some WTooBig => 2 end.
+
+(** Correspondence case: (max, messages written with per-write observed (error class, bytes
+    that reached the buffer after the call), wire after a final explicit flush, messages held
+    by the reader). *)
+Fixpoint emits_ok (max : N) (ws : list (msg * (N * N))) : bool :=
+  match ws with
+  | [] => true
+  | (m, (cls, n)) :: r =>
+      let '(e, b) := write_msg_emit max m in
+      (write_error_code e =? cls) && (blen b =? n) && emits_ok max r
+  end.
+
+Definition mixed_case_ok (c : N * list (msg * (N * N)) * bytes * list msg) : bool :=
+  let '(max, ws, wire, held) := c in
+  emits_ok max ws && bytes_eqb (write_stream_mixed max (map fst ws)) wire
+  && msgs_eqb (read_stream max wire) held.
